@@ -87,6 +87,7 @@ type c12Mount struct {
 	Shadow         *c12NS `json:"-"` // the mount's path lies inside the path of this (other) namespace
 	ShadowN        string `json:"inside_path_of_namespace,omitempty"`
 	shadowReported bool
+	shadowSealed   bool     // accepted while the shadowing namespace was sealed
 	Keys           []string `json:"-"` // raw keys stored through this mount
 	Data           []string `json:"-"` // data/ paths written through this mount
 }
@@ -622,7 +623,13 @@ func (w *c12World) shadowOf(m *c12Mount) *c12NS {
 	full := m.NS.Path + m.api()
 	for _, n := range w.nss {
 		if n != m.NS && n.Path != "" && strings.HasPrefix(full, n.Path) && len(n.Path) > len(m.NS.Path) && (d == nil || len(n.Path) > len(d.Path)) {
-			d = n
+			lost := false
+			for x := n; x != nil; x = x.Parent {
+				lost = lost || x.Lost
+			}
+			if !lost { // a namespace the core does not know does not capture the path
+				d = n
+			}
 		}
 	}
 	return d
@@ -633,6 +640,7 @@ func (w *c12World) markShadow(m *c12Mount) {
 	m.ShadowN = ""
 	if m.Shadow != nil {
 		m.ShadowN = m.Shadow.Path
+		m.shadowSealed = m.Shadow.effSealed()
 		w.r.Count("mounts_accepted_inside_the_path_of_a_sealed_namespace", 1)
 		w.step("mount %s was accepted although its path lies inside namespace %q (sealed=%v)", m, m.Shadow.Path, m.Shadow.effSealed())
 	}
